@@ -896,7 +896,7 @@ func (x *Exec) convert(s *State, v Value, from, to types.Type) (Value, bool) {
 func (x *Exec) sliceElems(s *State, sv *SliceVal) ([]Value, bool) {
 	n := int(sv.Len.Hi)
 	if sv.Len.Hi > 1<<20 {
-		x.fail("slice with unbounded symbolic length")
+		x.fail("slice with unbounded symbolic length at %s", x.posOf(s))
 	}
 	out := make([]Value, n)
 	for i := 0; i < n; i++ {
